@@ -568,6 +568,15 @@ impl Model {
     }
 }
 
+/// Verification hook (only with `--cfg rten_verif`): read access to the loaded graph.
+#[cfg(rten_verif)]
+impl Model {
+    #[doc(hidden)]
+    pub fn verif_graph(&self) -> &Graph {
+        &self.graph
+    }
+}
+
 impl std::fmt::Debug for Model {
     fn fmt(&self, f: &mut std::fmt::Formatter<'_>) -> std::fmt::Result {
         let node_names = |ids: &[NodeId]| -> Vec<&str> {
